@@ -140,6 +140,25 @@ impl<'a> Sim<'a> {
             let Some(io) = svc.next() else { break };
             pos += 1;
             let trig = segs.iter().find(|(_, upto)| pos <= *upto).map(|(t, _)| t.clone()).unwrap_or_else(|| segs.last().map(|(t, _)| t.clone()).unwrap_or(Trigger::Wake));
+            if let Some((n, id)) = self.orphan_result {
+                // A result that belongs to no fetch of the service (none was in `Service::fetching` for
+                // that repository when it arrived) must be dropped: whatever the service does because
+                // of it (announce, fetch, disconnect) is the result applied to a fetch that does not exist.
+                let what = match &io {
+                    Io::Write(..) => Some("wrote messages"),
+                    Io::Fetch { .. } => Some("started a fetch"),
+                    Io::Disconnect(..) => Some("disconnected a peer"),
+                    Io::Connect(..) => Some("dialled a peer"),
+                    Io::Wakeup(..) => None,
+                };
+                if let (true, Some(what)) = (n == node, what) {
+                    let own = self.own.clone();
+                    let rid = self.tasks[id as usize].rid;
+                    self.res.trace.log("orphan-result", format!("ORPHAN RESULT n{node}: task#{id} of {} belongs to no fetch, the service {what}", self.rname(&rid)));
+                    self.res.violate(&own, "C16", "C16/orphan-result-applied", format!("n{node}: the result of task#{id} arrived when the service had no fetch of {} in progress, and the service {what} because of it", self.rname(&rid)));
+                    self.orphan_result = None;
+                }
+            }
             match io {
                 Io::Write(peer, msgs) => self.io_write(node, peer, msgs, &trig),
                 Io::Connect(peer, addr) => self.io_connect(node, peer, addr),
@@ -261,7 +280,7 @@ impl<'a> Sim<'a> {
         let id = self.tasks.len() as u64;
         let gen = self.nodes[node].gen;
         let connected = matches!(self.nodes[node].wire.get(&remote).map(|w| &w.state), Some(WireState::Connected));
-        let mut task = Task { id, node, gen, rid, remote, conn: 0, stream: 0, done: false, aborted: false, dropped: !connected, outcome: Outcome::Ok, retired: false, attached: Default::default() };
+        let mut task = Task { id, node, gen, rid, remote, conn: 0, stream: 0, done: false, aborted: false, dropped: !connected, outcome: Outcome::Ok, retired: false, attached: Default::default(), nrefs };
         self.res.trace.log("io-fetch", format!("t={} n{node} Io::Fetch task#{id} {} from {} refs_at={nrefs}{}", self.now - T0, self.rname(&rid), self.name(&remote), if connected { "" } else { " (dropped: peer not connected at wire level)" }));
         self.check_fetch_emission(node, &rid, &remote, trig);
         if connected {
@@ -650,11 +669,18 @@ impl<'a> Sim<'a> {
                 self.stale_watch = Some((node, rid, c, id));
             }
         }
+        // the service's own view: does it have a fetch of this repository at all?
+        let had_entry = self.nodes[node].svc.as_ref().map(|s| s.fetching().contains_key(&rid)).unwrap_or(true);
         if self.call(node, &Trigger::Fetched, |s| s.fetched(rid, remote, result)).is_none() {
             return;
         }
         self.after_fetched(node, id, pre);
+        if !had_entry {
+            self.res.hit("probe.c16.orphan_result_delivered");
+            self.orphan_result = Some((node, id));
+        }
         self.drain(node, &[(Trigger::Fetched, usize::MAX)]);
+        self.orphan_result = None;
         self.stale_watch = None;
     }
 
